@@ -1,7 +1,8 @@
 From Coq Require Import Extraction ExtrOcamlBasic.
 From PV Require Import Lib.ExtractBase Lib.Table Gen.GrpcStatusGen Model.GrpcStatus Model.GrpcCall Model.GrpcExample
-  Model.GunOwner Model.AmmoOwner Model.ScenarioHeap Model.ScenarioAlias.
+  Model.GunOwner Model.AmmoOwner Model.ScenarioHeap Model.ScenarioAlias Model.SharedSched.
 Extraction Language OCaml.
 Extraction "extracted/C11_model.ml" xb_types grpc_code oinit orun orun_stuck exclusive_b arun arun_stuck ammo_exclusive_b
   isolated_b flow_ok_b fp writes reads synchronised owner inst_of
-  scen_model scen_spec heap_of sguns_of wire_meta out_code http_spec.
+  scen_model scen_spec heap_of sguns_of wire_meta out_code http_spec
+  shared_seen_ok_b shared_fin_ok_b.
